@@ -1487,6 +1487,12 @@ class _ConnectionFairy(PoolProxiedConnection):
             return
         if self._connection_record:
             self._connection_record.invalidate(e=e, soft=soft)
+        elif not soft:
+            # detached connection: there is no record that would close
+            # the DBAPI connection, so do it here
+            self._pool._close_connection(
+                self.dbapi_connection, terminate=True
+            )
         if not soft:
             # prevent any rollback / reset actions etc. on
             # the connection
